@@ -234,8 +234,22 @@ def main(pid):
     ev.cov["pipeline_annotations"] = sum(len(o["anns"]) for o in obs4)
     ev.sample({"pipeline_markup": mk[0][:160], "annotated": (obs4[0].get("output") or "")[:200]})
 
-    # (C) arbitrary string pairs through SpanUpdater, both engines
+    # (C) ANY source text (C09): arbitrary string pairs (insertions, deletions, replacements, unrelated texts, empty
+    # texts) through annotate_citations with random span sets (unsorted input, overlapping / empty / touching spans)
     pairs = string_pairs(rnd, 20000 if thorough else 4000)
+    adocs = []
+    for pr in pairs[:: 2]:
+        n = len(pr["a"])
+        anns = sorted([sorted([rnd.randint(0, n), rnd.randint(0, n)]) for _ in range(rnd.randint(0, 3))])
+        adocs.append({"plain": pr["a"], "target": pr["b"], "hasSrc": True, "mode": rnd.choice(["unchecked", "skip", "wrap"]),
+                      "anns": anns, "dmp": pr["dmp"]})
+    obs6 = vlib.impl_map("drv_annotate", "run_text", adocs)
+    fails, _ = tlc_judge("Trace_Annotate", "Trace_Annotate.cfg", obs6, ev, "anysource", chunk=5000)
+    total += len(obs6)
+    report(fails, [], obs6, "arbitrary plain / source pair", "run_text", adocs)
+    ev.cov["arbitrary_source_pairs"] = len(obs6)
+
+    # (C) arbitrary string pairs through SpanUpdater, both engines
     obs3 = vlib.impl_map("drv_annotate", "run_updater", pairs)
     fails, drifts = tlc_judge("Trace_SpanUpdater", "Trace_SpanUpdater.cfg", obs3, ev, "pairs")
     total += len(obs3)
